@@ -112,6 +112,13 @@ def structured() -> Iterator[str]:
             for c in FIELDS:
                 yield f"{a}/{b}/{c}"
                 yield f"{a}.{b}.{c}"
+    # very long inputs (CPython refuses int() of more than 4300 digits with a ValueError)
+    for n in (6, 20, 4300, 4301, 10000):
+        yield "1" * n
+        yield "0" * n + "7"
+        yield "1/1/" + "1" * n
+        yield "1." + "1" * n + ".1"
+        yield "i-" + "x" * n
     for s in ("1/2/3/4", "1//3", "/1/2", "1/2/", " 1/2/3", "1/2/3 ", "1.1", "1.1.1.1", "0x10", "1e3", "+5", "-1", "i-", "i", "I_abc", "i- x ", "i-1/2/3", "٣/٣/٣", "²/1/1", "1.²"):
         yield s
 
@@ -134,7 +141,7 @@ def run(ctx: Ctx) -> None:
     ctx.rule = (
         "(a) all 65 536 raw values x {individual, group x LONG/SHORT/FREE}: str -> constructor -> same raw, to_knx/from_knx, repr; (b) ALL strings of length <= "
         f"{maxlen} over {SIGMA} through IndividualAddress, GroupAddress (3 notations), InternalGroupAddress and parse_device_group_address (3 notations); (c) all a/b/c, a/b, a, a.b.c over "
-        f"{len(FIELDS)} field values; (d) non-string objects. Oracle: an address A with type(A)(str(A)) == A, or CouldNotParseAddress. non-trivial = input accepted"
+        f"{len(FIELDS)} field values and digit strings of 6..10000 characters; (d) non-string objects. Oracle: an address A with type(A)(str(A)) == A, or CouldNotParseAddress. non-trivial = input accepted"
     )
     ctx.bounds = {"raw_values": 65536, "string_alphabet": SIGMA, "max_string_length": maxlen}
     ctx.pmap(w_raw, [(lo, lo + 2048) for lo in range(0, 65536, 2048)])
